@@ -226,7 +226,9 @@ func (ex *Exec) verifyTop() {
 	}
 	envPost := &SpecEnv{vars: rvars, st: exit, lst: exit, pkg: fnPkg(fn), old: envPre, topOld: entry.top}
 	for _, e := range c.Ensures {
+		ex.proving = true
 		g := ex.evalBool(e.E, envPost)
+		ex.proving = false
 		o := vc.oblige("postcondition", e.Name(), reach, g, e.Where)
 		o.Descr = e.Text
 	}
